@@ -168,6 +168,7 @@ func doFetch(f *ntske.Fetcher, o *op) (string, bool, ntske.Data) {
 // hist is one history on one fresh Fetcher.
 type hist struct {
 	f         *ntske.Fetcher
+	kind      string    // case kind, if not the one of the transport
 	q         *quicPeer // non-nil: the Fetcher has QUIC.Enabled and this is its scripted peer (kind ke.quic)
 	deferred  bool      // written later by the caller
 	ops       []op
@@ -216,7 +217,7 @@ func (h *hist) fetch(sc script) (bool, ntske.Data) {
 func (h *hist) store(c []byte) {
 	h.f.StoreCookie(c)
 	h.ops = append(h.ops, op{store: true, cookie: c})
-	if len(c) <= 896 {
+	if len(c) <= 896 && h.pool < 8 { // ntske.MaxCookieLen, ntske.MaxStoredCookies
 		h.pool++
 	}
 }
@@ -229,19 +230,28 @@ func (h *hist) write() {
 	if h.q != nil {
 		kind = "ke.quic"
 	}
+	if h.kind != "" {
+		kind = h.kind
+	}
 	var ts []string
 	for t := range h.tags {
 		ts = append(ts, t)
 	}
 	sort.Strings(ts)
-	w.Case(kind, strings.Join(ts, ","), fmtOps(h.ops), lib.L(h.obs...))
+	args := fmtOps(h.ops)
+	if h.kind == "ke.bodylen" { // one kind for both transports: the transport is an argument
+		args = lib.V(args, lib.Bool(h.q != nil))
+	}
+	w.Case(kind, strings.Join(ts, ","), args, lib.L(h.obs...))
 }
 
 func replayHist(r *lib.Rng, ops []op, tags string) { replayOn(newHist(r), ops, tags) }
 
 func replayOn(h *hist, ops []op, tags string) {
 	for _, t := range strings.Split(tags, ",") {
-		if t != "" {
+		if strings.HasPrefix(t, "kind=") {
+			h.kind = t[5:]
+		} else if t != "" {
 			h.tags[t] = true
 		}
 	}
@@ -275,6 +285,12 @@ func main() {
 				replayHist(r, parseOps(c[2]), c[1])
 			case "ke.quic":
 				replayQUIC(r, parseOps(c[2]), c[1])
+			case "ke.bodylen":
+				if strings.Contains(c[1], "quic") {
+					replayQUIC(r, parseOps(c[2]), c[1]+",kind=ke.bodylen")
+				} else {
+					replayHist(r, parseOps(c[2]), c[1]+",kind=ke.bodylen")
+				}
 			case "ke.target":
 				vs := parseVals(c[2])
 				var ch [][2]int
